@@ -170,6 +170,17 @@ fn serve_conn(
             headers,
         };
         let action = script(&req, &file);
+        // Log on arrival (before any byte of the response is sent) so that a client which
+        // has seen the complete response is guaranteed to find its request in the log.
+        let slot = {
+            let mut g = log.lock().unwrap();
+            g.push(ReqLog {
+                req: req.clone(),
+                action: String::new(),
+                body_sent: 0,
+            });
+            g.len() - 1
+        };
         let correct: Vec<u8> = match req.range {
             Some((a, b)) if a <= b && (a as usize) < file.len() => {
                 let e = ((b as usize) + 1).min(file.len());
@@ -261,11 +272,13 @@ fn serve_conn(
                 }
             }
         }
-        log.lock().unwrap().push(ReqLog {
-            req,
-            action: desc,
-            body_sent: sent,
-        });
+        {
+            let mut g = log.lock().unwrap();
+            if let Some(e) = g.get_mut(slot) {
+                e.action = desc;
+                e.body_sent = sent;
+            }
+        }
         if close {
             let _ = out.shutdown(Shutdown::Both);
             return;
